@@ -10,12 +10,30 @@ Model driver for C11.  One history per line:
   memmask  : new_member(r,m,n) = bit ((|ref| + n) mod 8) of memmask   (mp: always true)
   k        : n | w | r
 
+or one GENERATED history per line (large structured histories; harness/c11.cpp and tools/props/c11.py
+synthesize the same history from the same parameters):
+
+  G <variant> <relmask> <memmask> <cb> <maxbuf> <wr> <fixed> | <shape> <n> <k> <ro> <sg> <st> <kd> <miss> <dup> <extra> <ni> <q> <seed> | E
+
+  n members M(0..n-1): magnitude 10 + j*st, negative iff sg=1 | sg=2 ∧ j%3=0 | sg=3 ∧ j<2; kind w (kd=0), nwr[j%3] (kd=1), n (2), r (3)
+  shape 0 share    : n*k relations, relation i = [M(i mod n)]          1 shareadj : n*k relations, relation i = [M(i div k)]
+        2 window   : n relations, relation i = [M(i..i+k-1 mod n)]     3 huge     : relation 0 = all members, relation i≥1 = [M((i-1)k)]
+        4 pairs    : n relations, relation i = [M(i), M(n-1-i)]         5 random   : n relations, 1..k members chosen by hash
+        6 hub      : n relations, relation i = [M(i)] (+ M(0) if i%k=0)
+  dup: relation i lists its first member once more if i%dup=0; ni: relation i is not interesting (content%4=2) if i%ni=ni-1;
+  ro: input order of the relations 0 ascending, 1 descending, 2 interleaved (front/back alternating);
+  miss: M(j) never arrives if j%miss=miss-1; extra: unrelated objects (magnitude+1, st≥2) every extra-th member;
+  q: a lookup of a pseudo-random member after every q-th object and of every member after the run (0: none);
+  after every object the fence lookup `Q n 0`, after every 1000th a flush.
+  Output: `G ops=<objects> ev=<C and N events> ck=<running digest after every 4096th object and at the end> hist=<digest of
+  the synthesized history> ; I <count> <digest> ; S … ; F … ; U…` (digest: see `Digest` below).
+
 Output: the events in order, then the incomplete list, database counts, flush statistics:
   C <rid> <k><ref>=<res>,...   N <k><id>   Q <k><id>=<res>   T
   I <rid>,...   S <live rels>/<rels> n=<t>/<a>/<r> w=... r=...   F <flushes> <flushed> <left>   U<ub>
   res : `-` nullptr | `<id>:<content>:1` live object | `W` wild pointer
 -/
-import Osmium.Model.RelMgr
+import Osmium.Model.RelMgrVec
 import Driver.Common
 
 open Osmium.RelMgr Osmium.Order Driver
@@ -76,8 +94,14 @@ def countsStr (es : List Elem) : String :=
   let (t, a, r) := dbCounts es
   s!"{t}/{a}/{r}"
 
-def runLine (line : String) : Option String := do
-  let secs := splitSections (words line)
+def tailStr (s : State) : List String := [
+  s!"S {s.countRelations}/{s.rdb.size} n={countsStr s.ndb} w={countsStr s.wdb} r={countsStr s.rmdb}",
+  s!"F {s.flushes} {s.flushedBytes} {s.outBytes}",
+  s!"U{b01 s.ub}"]
+
+/-- The compiled model runs the vector machine `vRun` (Model/RelMgrVec.lean); `vrun_abs`
+    (Lemmas/RelMgrVec.lean): `(vRun c rels ops).abs = run c rels ops` for all arguments. -/
+def runLine (secs : List (List String)) : Option String := do
   match secs with
   | ("H" :: variant :: rm :: mm :: cb :: maxbuf :: wr :: fixed :: []) :: rest =>
     let cfg := mkCfg variant (← rm.toNat?) (← mm.toNat?) (cb == "1") (← maxbuf.toNat?) (← wr.toNat?) (fixed == "1")
@@ -98,15 +122,225 @@ def runLine (line : String) : Option String := do
       | ["E"] => pure ()
       | [] => pure ()
       | _ => none
-    let s := run cfg rels.reverse ops.reverse
+    let s := (vRun cfg rels.reverse ops.reverse).abs
     -- MultipolygonManager does not override *_not_in_any_relation: nothing to observe there
     let evs := (s.events.filter fun e => match e with | .notIn .. => variant != "mp" | _ => true).map eventStr
-    let tail := [
-      "I " ++ (if s.incomplete.isEmpty then "-" else ",".intercalate (s.incomplete.map toString)),
-      s!"S {s.countRelations}/{s.rdb.size} n={countsStr s.ndb} w={countsStr s.wdb} r={countsStr s.rmdb}",
-      s!"F {s.flushes} {s.flushedBytes} {s.outBytes}",
-      s!"U{b01 s.ub}"]
+    let tail := ("I " ++ (if s.incomplete.isEmpty then "-" else ",".intercalate (s.incomplete.map toString))) :: tailStr s
     some (" ; ".intercalate (evs ++ tail))
   | _ => none
 
-def main : IO Unit := loopPure fun line => (runLine line).getD "bad-op"
+/-! ### Generated histories -/
+
+namespace Digest
+
+def mix (x : UInt64) : UInt64 :=
+  let z := x + 0x9E3779B97F4A7C15
+  let z := (z ^^^ (z >>> 30)) * 0xBF58476D1CE4E5B9
+  let z := (z ^^^ (z >>> 27)) * 0x94D049BB133111EB
+  z ^^^ (z >>> 31)
+
+/-- pseudo-random choice `(seed, a, b)` -/
+def hm (seed a b : UInt64) : UInt64 := mix (mix (seed + a) + b)
+
+/-- one step of the running digest -/
+def step (h x : UInt64) : UInt64 :=
+  let z := (h ^^^ x) * 0x9E3779B97F4A7C15
+  z ^^^ (z >>> 32)
+
+def ofInt (i : Int) : UInt64 := i.toInt64.toUInt64
+
+def kc : Kind → UInt64
+  | .node => 1
+  | .way => 2
+  | .relation => 3
+
+/-- (status, content): 0 nullptr, 1 not the input object / wild, 2 the input object -/
+def lookCode (ref : Int) : Lookup → UInt64 × UInt64
+  | .absent => (0, 0)
+  | .wild => (1, 0)
+  | .found o => if o.id == ref then (2, UInt64.ofNat o.content) else (1, 0)
+
+/-- hash of a C or N event (they are summed per object: the order of the callbacks of one
+    object is not part of the property) -/
+def evHash : Event → UInt64
+  | .complete _ rid _ looks =>
+    looks.foldl (fun e (m, l) =>
+      let (st, ct) := lookCode m.ref l
+      step (step (step (step e (kc m.kind)) (ofInt m.ref)) st) ct) (step 1 (ofInt rid))
+  | .completeWild pos => step 5 (UInt64.ofNat pos)
+  | .notIn k id => step (step 2 (kc k)) (ofInt id)
+  | _ => 0
+
+structure Acc where
+  h : UInt64 := 0       -- running digest
+  a : UInt64 := 0       -- sum of the C/N events since the last boundary
+  objs : Nat := 0       -- fences seen (= objects)
+  evs : Nat := 0
+  cks : List UInt64 := []
+
+/-- boundaries are the query events (the fence after every object) and `thrown` -/
+def feed (mp : Bool) (acc : Acc) : Event → Acc
+  | .query k id res =>
+    let (st, ct) := lookCode id res
+    let h := step (step (step (step (step acc.h acc.a) 3) (kc k)) (ofInt id)) (st * 4294967296 + ct)
+    let fence := k == .node && id == 0
+    let objs := if fence then acc.objs + 1 else acc.objs
+    { acc with h := h, a := 0, objs := objs, cks := if fence && objs % 4096 == 0 then h :: acc.cks else acc.cks }
+  | .thrown => { acc with h := step (step acc.h acc.a) 4, a := 0 }
+  | .notIn k id => if mp then acc else { acc with a := acc.a + evHash (.notIn k id), evs := acc.evs + 1 }
+  | e => { acc with a := acc.a + evHash e, evs := acc.evs + 1 }
+
+/-- weighted sum `Σ (i+1)·x_i` (a cheap position-sensitive digest for the synthesized history) -/
+structure WSum where
+  i : UInt64 := 1
+  s : UInt64 := 0
+
+def WSum.add (w : WSum) (x : UInt64) : WSum := { i := w.i + 1, s := w.s + w.i * x }
+
+end Digest
+
+structure GSpec where
+  shape : Nat
+  n : Nat
+  k : Nat
+  ro : Nat
+  sg : Nat
+  st : Nat
+  kd : Nat
+  miss : Nat
+  dup : Nat
+  extra : Nat
+  ni : Nat
+  q : Nat
+  seed : UInt64
+
+namespace GSpec
+open Digest
+
+def kindOf (g : GSpec) (j : Nat) : Kind :=
+  match g.kd with
+  | 0 => .way
+  | 1 => if j % 3 == 0 then .node else if j % 3 == 1 then .way else .relation
+  | 2 => .node
+  | _ => .relation
+
+def mag (g : GSpec) (j : Nat) : Nat := 10 + j * g.st
+
+def neg (g : GSpec) (j : Nat) : Bool :=
+  g.sg == 1 || (g.sg == 2 && j % 3 == 0) || (g.sg == 3 && j < 2)
+
+def idOf (g : GSpec) (j : Nat) : Int := if g.neg j then -(g.mag j : Int) else (g.mag j : Int)
+
+def nRels (g : GSpec) : Nat :=
+  match g.shape with
+  | 0 => g.n * g.k
+  | 1 => g.n * g.k
+  | 3 => 1 + g.n / g.k
+  | _ => g.n
+
+def memberIdx (g : GSpec) (i : Nat) : List Nat :=
+  let js : List Nat :=
+    match g.shape with
+    | 0 => [i % g.n]
+    | 1 => [i / g.k]
+    | 2 => (List.range g.k).map (fun t => (i + t) % g.n)
+    | 3 => if i == 0 then List.range g.n else [(i - 1) * g.k]
+    | 4 => [i, g.n - 1 - i]
+    | 5 =>
+      let w := 1 + (hm g.seed (UInt64.ofNat i) 3).toNat % g.k
+      (List.range w).map (fun t => (hm g.seed (UInt64.ofNat i) (UInt64.ofNat (10 + t))).toNat % g.n)
+    | _ => if i % g.k == 0 then [i, 0] else [i]
+  if g.dup > 0 && i % g.dup == 0 then js ++ [js.headD 0] else js
+
+def rel (g : GSpec) (i : Nat) : Rel :=
+  let cc := if g.ni > 0 && i % g.ni == g.ni - 1 then 2 else (hm g.seed (UInt64.ofNat i) 2).toNat % 2
+  { id := (i : Int) + 1
+    content := 4 * ((hm g.seed (UInt64.ofNat i) 1).toNat % 250) + cc
+    members := (g.memberIdx i).map (fun j => ⟨g.kindOf j, g.idOf j⟩) }
+
+def perm (g : GSpec) (p : Nat) : Nat :=
+  let r := g.nRels
+  match g.ro with
+  | 0 => p
+  | 1 => r - 1 - p
+  | _ => if p % 2 == 0 then p / 2 else r - 1 - p / 2
+
+def rels (g : GSpec) : List Rel := (List.range g.nRels).map (fun p => g.rel (g.perm p))
+
+def content (g : GSpec) (k : Kind) (id : Int) : Nat :=
+  (hm (g.seed ^^^ 0x55) (UInt64.ofNat id.natAbs) (kc k * 2 + (if id < 0 then 1 else 0))).toNat % 100000
+
+/-- the objects of the second pass in file order: per type, negative ids by magnitude, then positive ids -/
+def objects (g : GSpec) : Array Osmium.RelMgr.Obj := Id.run do
+  let mut out : Array Osmium.RelMgr.Obj := #[]
+  for k in [Kind.node, Kind.way, Kind.relation] do
+    for negPass in [true, false] do
+      for j in [0:g.n] do
+        if g.kindOf j == k && g.neg j == negPass then
+          if !(g.miss > 0 && j % g.miss == g.miss - 1) then
+            out := out.push ⟨k, g.idOf j, g.content k (g.idOf j)⟩
+          if g.extra > 0 && g.st ≥ 2 && j % g.extra == 0 then
+            let id : Int := if negPass then -((g.mag j : Int) + 1) else (g.mag j : Int) + 1
+            out := out.push ⟨k, id, g.content k id⟩
+        if g.kd == 0 && k == .node && !negPass && g.extra > 0 && j % (g.extra * 7) == 0 then
+          out := out.push ⟨.node, (g.mag j : Int), g.content .node (g.mag j : Int)⟩
+  return out
+
+def ops (g : GSpec) : List Op := Id.run do
+  let objs := g.objects
+  let mut out : Array Op := #[]
+  let mut p := 0
+  for o in objs do
+    out := out.push (.obj o)
+    out := out.push (.query .node 0)
+    if g.q > 0 && p % g.q == g.q - 1 then
+      let j := (hm g.seed (UInt64.ofNat p) 7).toNat % g.n
+      out := out.push (.query (g.kindOf j) (g.idOf j))
+    if p % 1000 == 999 then
+      out := out.push .flush
+    p := p + 1
+  if g.q > 0 then
+    for j in [0:g.n] do
+      out := out.push (.query (g.kindOf j) (g.idOf j))
+  return out.toList
+
+def histDigest (rels : List Rel) (ops : List Op) : UInt64 :=
+  let w := rels.foldl (fun (w : WSum) r =>
+    r.members.foldl (fun w m => (w.add (kc m.kind)).add (ofInt m.ref))
+      (((w.add (ofInt r.id)).add (UInt64.ofNat r.content)).add (UInt64.ofNat r.members.length))) {}
+  let w := ops.foldl (fun (w : WSum) op =>
+    match op with
+    | .obj o => (((w.add 5).add (kc o.kind)).add (ofInt o.id)).add (UInt64.ofNat o.content)
+    | .query k id => ((w.add 6).add (kc k)).add (ofInt id)
+    | .flush => w.add 7) w
+  w.s
+
+end GSpec
+
+def runGen (secs : List (List String)) : Option String := do
+  match secs with
+  | ("G" :: variant :: rm :: mm :: cb :: maxbuf :: wr :: fixed :: []) ::
+      [shape, n, k, ro, sg, st, kd, miss, dup, extra, ni, q, seed] :: _ =>
+    let cfg := mkCfg variant (← rm.toNat?) (← mm.toNat?) (cb == "1") (← maxbuf.toNat?) (← wr.toNat?) (fixed == "1")
+    let g : GSpec := { shape := ← shape.toNat?, n := ← n.toNat?, k := ← k.toNat?, ro := ← ro.toNat?, sg := ← sg.toNat?,
+                       st := ← st.toNat?, kd := ← kd.toNat?, miss := ← miss.toNat?, dup := ← dup.toNat?, extra := ← extra.toNat?,
+                       ni := ← ni.toNat?, q := ← q.toNat?, seed := UInt64.ofNat (← seed.toNat?) }
+    if g.n == 0 || g.k == 0 then none
+    let rels := g.rels
+    let ops := g.ops
+    let hd := GSpec.histDigest rels ops
+    let s := (vRun cfg rels ops).abs
+    let acc := s.events.foldl (Digest.feed (variant == "mp")) {}
+    let hfin := Digest.step acc.h acc.a
+    let cks := ",".intercalate ((hfin :: acc.cks).reverse.map toString)
+    let inc := s.incomplete
+    let idig := inc.foldl (fun h r => Digest.step h (Digest.ofInt r)) 0
+    some (" ; ".intercalate
+      ([s!"G ops={acc.objs} ev={acc.evs} ck={cks} hist={hd}", s!"I {inc.length} {idig}"] ++ tailStr s))
+  | _ => none
+
+def main : IO Unit := loopPure fun line =>
+  let secs := splitSections (words line)
+  match secs with
+  | ("G" :: _) :: _ => (runGen secs).getD "bad-op"
+  | _ => (runLine secs).getD "bad-op"
